@@ -26,6 +26,10 @@ CHECKS = {
    text="Every exponent -6176..6111 occurs (combined with coefficient patterns of lengths 1, 2, 17, 33, 34, both signs, trailing zeros, and arithmetic results x/3, x*7; near 0 and at both range edges every combination), plus seeded random numbers. For each number the harness records to_string, jsonify, from_str(to_string), the FEEL literal and xsd:decimal input of the harness-written plain text; Trace_C07 (TLC) rebuilds the only plain-decimal text the value and the (untrusted) structure hints can denote, compares it with the printed text, checks the JSON number rules, the magnitude, the sign and the round trip.",
    note="Exponents are exhaustive, coefficients are sampled by pattern (exploration). Trusts TLC, hook H2 for the exact value, the harness's own plain-decimal writer for literals.",
    technique="TLA+ denotation check (text must be the unique plain-decimal rendering of the observed value) by TLC over traces of the real formatter/parser"),
+ "C06": dict(cat="exploration", design="DESIGN.md §5 C06",
+   text="FeelSyntax.tla holds the operator table (binding power, associativity, closed/open positions) and renders syntax trees as token sequences; TLC enumerates every construct nested in every operand position of every other construct (2106 pairs) and three-level nests over the operator ladder (quick) or all templates (thorough), each in its fully parenthesised, minimally parenthesised and - where one needed pair exists - parenthesis-free rendering. The harness lays the tokens out (spaces; tabs/line breaks; block and line comments; comments after declared names/types as a separately judged layout), parses with names bound, converts the AstNode to the spec's tree encoding, and TLC compares: full and min must give back the tree, the pair-removed rendering must not. String-literal escapes (\\uXXXX, \\UXXXXXX, surrogate pairs) are decoded for boundary and random code points (all code points in thorough).",
+   note="The minimal-parenthesis rule is the spec's own (transcribed from the DMN rule order / feel.y precedences); a reference parser in TLA+ to validate it independently is not built. Trusts TLC and the harness's AstNode converter.",
+   technique="TLA+ operator-table specification generating parse stimuli and judging the parsed trees (round trip) of the real parser"),
 }
 NOT_YET = {}
 props = [json.loads(l) for l in open('/verif/properties.jsonl')]
@@ -33,7 +37,7 @@ hooks = subprocess.run(['git','-C','/repo','log','--format=%H %s'],capture_outpu
 hook_commits = [l.split()[0] for l in hooks if 'verif hook' in l]
 m = {
  "version": 1,
- "setup_cmd": "cd /verif/harness && CARGO_NET_OFFLINE=true cargo build --offline",
+ "setup_cmd": "cd /verif && ./check build",
  "hooks": {"guard": "--cfg dmntk_verif", "enable": "RUSTFLAGS --cfg dmntk_verif via /verif/harness/.cargo/config.toml (the harness crate patches all dmntk-* crates to /repo/<crate>)",
            "baseline_off_cmd": "/verif/baseline_off.sh", "source_commits": hook_commits, "add_only": True},
  "engines": [{"name": "dmntk-verif", "path": "/verif/harness", "serves_properties": sorted(CHECKS), "kind_free_text": "Rust harness driving the real crates + TLC (specs in /verif/spec) as generator and judge"}],
